@@ -421,3 +421,5 @@ Lemma alias_popularity : py_inputs_untouched gen_alias_popularity_comparison = t
 Proof. reflexivity. Qed.
 Lemma alias_swc : py_inputs_untouched gen_alias_social_welfare_comparison = true.
 Proof. reflexivity. Qed.
+Lemma composition_all_translated : gen_untranslated_composition = [].
+Proof. reflexivity. Qed.
